@@ -75,4 +75,8 @@ def handlePlain : List Sx → Sx
     | _, _, _ => Sx.bad
   | _ => Sx.bad
 
+/-- request names served by this module (collected into `JinjaV.Wire.All` by tools/gen_wire_all.py) -/
+def handlers : List (String × (List Sx → Sx)) :=
+  [("lex", handle), ("lex-plain", handlePlain)]
+
 end JinjaV.Wire.Lex
